@@ -184,14 +184,15 @@ def search(ctx):
     for i in range(ctx.budget(60, 600)):
         sc = degenerate(ctx, i)
         trainer = trainers[(i // len(KINDS)) % len(trainers)]
-        sw = SWITCHES[1 + (i % 7)]
-        dask = (i % 3 == 2)
+        sw = SWITCHES[1 + int(ctx.rng.integers(0, 7))]
+        dask = bool(ctx.rng.random() < 0.33)
         ctx.count(f"search:{trainer}:{sc['kind']}")
         ctx.case(["s", trainer, sc["kind"], core.tolist(sc["x"]), sw, dask], nontrivial=True)
-        f = oracle(sc, trainer, sw, steps=1 + i % 3, dask=dask)
+        steps = 1 + int(ctx.rng.integers(0, 3))
+        f = oracle(sc, trainer, sw, steps=steps, dask=dask)
         if f and f["sig"] not in seen:
             seen.add(f["sig"])
-            f["input"] = {**{k: sc[k] for k in ("kind", "K", "D", "x", "cent", "sizes")}, "trainer": trainer, "switches": list(sw), "steps": 1 + i % 3, "dask": dask}
+            f["input"] = {**{k: sc[k] for k in ("kind", "K", "D", "x", "cent", "sizes")}, "trainer": trainer, "switches": list(sw), "steps": steps, "dask": dask}
             fails.append(f)
     for i in range(ctx.budget(6, 60)):
         f = ivector_oracle(ctx, i)
